@@ -288,9 +288,8 @@ U_UnlockPkg(p) ==
   /\ pc[p] = "u_unlockpkg"
   /\ pkgLock' = [pkgLock EXCEPT ![op[p].b].ex = {}]
   /\ pc' = [pc EXCEPT ![p] = "u_closepkg"] /\ H("U_UnlockPkg", p, "")
-  \* repaired: the rewritten text is flushed here (st_mtime changes once more)
-  /\ order' = IF loc[p].dirty /\ ~W("UnlockBeforeFlush") THEN Touch(order, op[p].b) ELSE order
-  /\ UNCHANGED <<sdir, repo, pkg, ninst, repoLock, ws, claim, op, loc, budget, ghost>>
+  \* (repaired: the rewritten text was flushed before this unlock, still within U_Register's critical section)
+  /\ UNCHANGED <<store, repoLock, ws, claim, op, loc, budget, ghost>>
 
 \* 59 [close pkg.json]: the buffered rewrite reaches the file
 U_ClosePkg(p) ==
